@@ -525,6 +525,10 @@ CURATED = {
     "P18-chain-after-restart": ([("start",), ("enq", "ret"), ("join", BIG), ("stop",), ("start",), ("chain", 0, 2), ("chain", 1, 2), ("result", "c0", BIG)], None),
     "P19-chain-with-second-submitter": ([("start",), ("spawn",), ("chain", 0, 2), ("chain", 1, 2), ("joinsub",), ("result", "c0", BIG)], [("enq", "ret"), ("enq", "ret")]),
     "P20-timed-join-with-gated": ([("start",), ("enq", "gated"), ("join", 5), ("open", "c0"), ("join", BIG)], None),
+    "P36-stop-with-two-busy-workers": ([("start",), ("enq", "gated"), ("enq", "gated"), ("spawn",), ("stop",), ("joinsub",), ("start",), ("stop",), ("enq", "ret"),
+                                        ("sleep", 200), ("start",), ("result", "c2", BIG), ("stop",)], [("open", "c0"), ("open", "c1")]),
+    "P37-stop-with-two-busy-then-work": ([("start",), ("enq", "gated"), ("enq", "gated"), ("spawn",), ("stop",), ("joinsub",), ("start",), ("enq", "ret"), ("enq", "raise"),
+                                          ("join", None), ("stop",), ("sleep", 200)], [("open", "c1"), ("open", "c0")]),
     "P34-join-zero-timeout": ([("start",), ("enq", "gated"), ("join", 0), ("join", 0.0), ("open", "c0"), ("join", BIG), ("join", 0)], None),
     "P21-stop-with-join-racing": ([("start",), ("enq", "ret"), ("spawn",), ("stop",), ("joinsub",)], [("join", BIG)]),
     "P22-backlog-then-chain": ([("enq", "ret"), ("enq", "ret"), ("enq", "ret"), ("start",), ("join", BIG), ("sleep", 61), ("chain", 0, 2), ("chain", 1, 2), ("result", "c3", BIG)], None),
